@@ -118,6 +118,14 @@ def rand_monomial(rng, d):
 
 
 def rand_dense(rng, d):
+    if rng.random() < 0.1:
+        # diagonal with non-zero entries and trace exactly d, not the identity (looks like an identity to a test by trace / pattern)
+        pairs = [(1 + 1j, 1 - 1j), (3, -1), (2 + 1j, -1j), (1 + 2j, 1 - 2j)]
+        diag = []
+        for _ in range(d // 2):
+            a, b = rng.choice(pairs)
+            diag += [a, b] if rng.random() < 0.5 else [b, a]
+        return np.diag(np.array(diag, dtype=complex))
     return np.array([[rng.choice(SMALL) for _ in range(d)] for _ in range(d)], dtype=complex)
 
 
